@@ -84,7 +84,7 @@ func stallPoints(stack string, everyOffset bool) []stallPoint {
 		sp = append(sp, stallPoint{"no-byte", idleTO})
 	}
 	sp = append(sp, stallPoint{"partial-request-head-1", headerTO}, stallPoint{"partial-request-head-20", headerTO}, stallPoint{"request-head-without-final-LF", headerTO},
-		stallPoint{"between-requests", idleTO}, stallPoint{"origin-slow", 0})
+		stallPoint{"between-requests", idleTO}, stallPoint{"origin-slow", 0}, stallPoint{"request-body-incomplete", 0})
 	return sp
 }
 
@@ -195,6 +195,14 @@ func (c *ctx) open(stall string) *peerConn {
 	return c.request(pc, stall)
 }
 
+// bodyHead is the head of a request that declares a 10-octet body.
+func (c *ctx) bodyHead() string {
+	if c.stack == "mitm" {
+		return "POST /x HTTP/1.1\r\nHost: ok.test\r\nContent-Length: 10\r\n\r\n"
+	}
+	return "POST http://ok.test/x HTTP/1.1\r\nHost: ok.test\r\nContent-Length: 10\r\n\r\n"
+}
+
 func (c *ctx) head() string {
 	if c.stack == "mitm" {
 		return "GET /x HTTP/1.1\r\nHost: ok.test\r\n\r\n"
@@ -219,6 +227,11 @@ func (c *ctx) headCut(stall string) int {
 func (c *ctx) request(pc *peerConn, stall string) *peerConn {
 	if k := c.headCut(stall); k > 0 {
 		pc.s.Send([]byte(c.head()[:k]))
+		return pc
+	}
+	if stall == "request-body-incomplete" {
+		// the head is complete (read-header-timeout no longer applies), half of the declared body has arrived
+		pc.s.Send([]byte(c.bodyHead() + "12345"))
 		return pc
 	}
 	return c.exchange(pc, stall, []byte(c.head()))
@@ -463,18 +476,33 @@ func scenario(x *explore.X, everyOffset bool) {
 		world.Settle(10 * time.Minute)
 		for i, pc := range stalled {
 			if pc.closedByProxy() {
-				x.Failf("closed-while-origin-slow", "stack %s: peer %d was closed although only the origin is slow (after %v)", stack, i, time.Since(t0))
+				x.Failf("closed-while-origin-slow", "stack %s stall %s: peer %d was closed although no limit applies to this phase (after %v)", stack, sp.name, i, time.Since(t0))
 			}
 		}
 		hop := c.ok
 		if stack == "mitm" {
 			hop = c.okTLS
 		}
+		if sp.name == "request-body-incomplete" {
+			// the client finishes its upload ten minutes later: the request must reach the origin whole
+			for _, pc := range stalled {
+				pc.s.Send([]byte("67890"))
+			}
+			msgs, _, _ := hop.Next()
+			for i, m := range msgs {
+				if string(m.Body) != "1234567890" {
+					x.Failf("late-body-lost", "stack %s: the origin received body %q of request %d, the client sent 1234567890 (second half ten minutes after the first)", stack, m.Body, i)
+				}
+			}
+			if len(msgs) != len(stalled) {
+				x.Failf("late-body-lost", "stack %s: %d of %d slow uploads reached the origin", stack, len(msgs), len(stalled))
+			}
+		}
 		for _, oc := range hop.Conns {
 			oc.Send([]byte("HTTP/1.1 200 OK\r\nContent-Length: 4\r\n\r\nlate"))
 		}
 		for i, pc := range stalled {
-			rs := httpwire.ParseResponses(pc.s.Recv(), []string{"GET"}, false)
+			rs := httpwire.ParseResponses(pc.s.Recv(), []string{"POST"}, false)
 			if len(rs.Msgs) != 1 || string(rs.Msgs[0].Body) != "late" {
 				x.Failf("late-answer-lost", "stack %s: peer %d did not receive the origin's late answer: %q", stack, i, world.Clip(pc.s.Recv()))
 			}
